@@ -6,7 +6,7 @@ from typing import List
 from jsonschema import SchemaError
 
 from vf import cand, gate, refmodel, templates as tp
-from vf.harness import HarnessEscape, Scalar, Spec, small
+from vf.harness import HarnessEscape, Scalar, Spec, pick, small
 
 META = {
     "level": "model_checking",
@@ -48,6 +48,24 @@ def keyword(d, k, kind, position="root"):
         return got == want, got
 
     return Spec([("v", cand.VALUE_KINDS[kind])], pre, body, tags=[])
+
+
+SCHEMA_URIS = ["http://json-schema.org/draft-03/schema#", "http://json-schema.org/draft-04/schema#", "http://json-schema.org/draft-06/schema#",
+               "http://json-schema.org/draft-07/schema#", "http://json-schema.org/draft-04/schema", "http://example.test/unknown-dialect", "not a uri", ""]
+
+
+def with_schema_uri(d, k, kind):
+    """the candidate names another dialect in its own $schema: the class's verdict must still follow its own metaschema and rules"""
+    def pre(v, ui):
+        return small(v, 2, 2, 2) and cand.value_ok(d, kind, v) and 0 <= ui < len(SCHEMA_URIS)
+
+    def body(v, ui):
+        schema = {"$schema": pick(SCHEMA_URIS, ui), k: cand.value_of(d, kind, v)}
+        got = verdict(d, schema)
+        want = "accepted" if refmodel.valid(d, cand.metaschema(d), schema) else "rejected"
+        return got == want, got
+
+    return Spec([("v", cand.VALUE_KINDS[kind]), ("ui", int)], pre, body, tags=[])
 
 
 def nonobject(d, kind):
@@ -120,6 +138,11 @@ def conditions(tier, seed, active):
         if d in (3, 4):
             for kind in ("int", "str", "float"):
                 c("metadeps/%s/d%d" % (kind, d), "dep_pair", dict(d=d, kind=kind), ["accepted", "rejected"])
+        for k, kinds in (("type", ("int", "str", "arr_str")), ("multipleOf", ("int", "float")), ("divisibleBy", ("int", "float")),
+                         ("exclusiveMinimum", ("bool", "int")), ("required", ("bool", "arr_str")), ("const", ("null", "int")),
+                         ("items", ("bool", "subschema")), ("id", ("str", "int")), ("$id", ("str", "int"))):
+            for kind in kinds:
+                c("schema-uri/%s/%s/d%d" % (k, kind, d), "with_schema_uri", dict(d=d, k=k, kind=kind), [], timeout=900)
         for k in cand.keywords(d):
             root_kinds = cand.kinds_for(k)
             if quick:
